@@ -1194,7 +1194,7 @@ def c04_dml_stamps(env, ob):
     return agg
 
 
-@obligation(id="C18.delta_step_stamps", also="C04", funcs="TupleReader::parse_for_snapshot",
+@obligation(id="C18.delta_step_stamps", also="C04", funcs="TupleReader::parse_for_snapshot", native="c18_reader_steps_back_two_versions",
             bounds="every path of parse_for_snapshot that steps to exactly one older version (loop unrolled once); "
                    "decoding of the delta payload uninterpreted")
 def c18_delta_step(env, ob):
